@@ -334,7 +334,7 @@ End Model.
 Fixpoint insert_by (key : val -> Z) (x : val) (l : list val) : list val :=
   match l with
   | [] => [x]
-  | y :: t => if (key x <? key y)%Z then x :: y :: t else y :: insert_by key x t
+  | y :: t => if (key x <=? key y)%Z then x :: y :: t else y :: insert_by key x t
   end.
 (** stable insertion sort: one sorting permutation (Go's pdqsort gives some sorting permutation) *)
 Definition isort_by (key : val -> Z) (l : list val) : list val :=
